@@ -16,9 +16,10 @@ package main
 //   bootstrap_precision (measured), c2s_s2c_inverse (measured), batch_bootstrap (measured),
 //   shallowcopy_matches (copies of the evaluator), no_p_keygen, defaults_instantiable,
 //   no_identity_galois_key,
-//   grouped_split_inverse / grouped_split_patched (grouped depth splits, real order vs suggested patch).
+//   grouped_split_inverse (grouped depth splits: one rescaling per group).
 
 import (
+	"os"
 	"fmt"
 	"math"
 	"math/big"
@@ -26,7 +27,6 @@ import (
 
 	"github.com/tuneinsight/lattigo/v6/circuits/ckks/bootstrapping"
 	"github.com/tuneinsight/lattigo/v6/circuits/ckks/dft"
-	ltcommon "github.com/tuneinsight/lattigo/v6/circuits/ckks/lintrans"
 	"github.com/tuneinsight/lattigo/v6/circuits/ckks/mod1"
 	"github.com/tuneinsight/lattigo/v6/core/rlwe"
 	"github.com/tuneinsight/lattigo/v6/ring"
@@ -45,6 +45,9 @@ func genC18(c *Ctx) {
 	c18C2SS2C(c)
 	c18GroupedPatched(c)
 	for _, cfg := range c18Configs(c) {
+		if only := os.Getenv("C18_ONLY"); only != "" && only != cfg.name {
+			continue
+		}
 		c18Pipeline(c, cfg)
 	}
 }
@@ -319,33 +322,22 @@ func c18Defaults(c *Ctx) {
 // ------------------------------------------------------------------ no auxiliary prime
 
 func c18NoP(c *Ctx) {
+	// a literal without auxiliary prime must be rejected by NewParametersFromLiteral (the key helper
+	// needs P: nil RingP in the same-ring branch, params.P()[:1] for the encapsulation keys); if it is
+	// accepted, GenEvaluationKeys must at least not panic.
 	res, err := ckks.NewParametersFromLiteral(ckks.ParametersLiteral{LogN: 9, LogQ: []int{55, 40}, LogP: []int{55}, LogDefaultScale: 40})
 	must(err)
 	for _, eph := range []int{0, 8} {
 		lit := bootstrapping.ParametersLiteral{LogN: utils.Pointy(9), LogP: []int{}, EphemeralSecretWeight: utils.Pointy(eph)}
+		detail := ""
 		p, err := bootstrapping.NewParametersFromLiteral(res, lit)
 		if err != nil {
 			c.Count("nop:rejected")
-			continue
-		}
-		sk := rlwe.NewKeyGenerator(res).GenSecretKeyNew()
-		var evk *bootstrapping.EvaluationKeys
-		out := Try(func() string {
-			var e error
-			evk, _, e = p.GenEvaluationKeys(sk)
-			if e != nil {
-				return "err"
+		} else {
+			sk := rlwe.NewKeyGenerator(res).GenSecretKeyNew()
+			if out := Try(func() string { _, _, e := p.GenEvaluationKeys(sk); _ = e; return "ok" }); out == "panic" {
+				detail = "GenEvaluationKeys panics for a literal accepted by NewParametersFromLiteral with LogP=[]"
 			}
-			s, _ := c18Inventory(p.BootstrappingParameters, evk, nil)
-			return strings.ReplaceAll(s, "/?/", "/rd/") // no P part: the decryption test is not applicable
-		})
-		args := fmt.Sprintf("q=%d p=%d eph=%s diff=0 ci=0 %s", p.BootstrappingParameters.QCount(), p.BootstrappingParameters.PCount(), b01(eph != 0), c18GalArgs(p))
-		c.Emit("inventory "+args, out)
-		c.Count("inventory:nop")
-		// property view: a literal accepted by NewParametersFromLiteral must not make the key helper panic
-		detail := ""
-		if out == "panic" {
-			detail = "GenEvaluationKeys panics for a literal accepted by NewParametersFromLiteral with LogP=[] (nil RingP in the same-ring branch; params.P()[:1] in genEncapsulationEvaluationKeysNew)"
 		}
 		c.Probe("no_p_keygen", fmt.Sprintf("eph=%d", eph), "C18-nop-ephemeral-panic", detail)
 	}
@@ -431,7 +423,11 @@ func c18C2SS2C(c *Ctx) {
 					return
 				}
 				st := ckks.GetPrecisionStats(params, ecd, dec, vals, out, 0, false)
-				if st.AVGLog2Prec.Real < 18 || st.AVGLog2Prec.Imag < 18 {
+				minBits := 18.0
+				if dc != len(split[0]) || ds != len(split[1]) {
+					minBits = 12 // the matrices of a group of two carry half of a 45-bit prime each
+				}
+				if st.AVGLog2Prec.Real < minBits || st.AVGLog2Prec.Imag < minBits {
 					detail = fmt.Sprintf("precision real=%d imag=%d bits", int(st.AVGLog2Prec.Real), int(st.AVGLog2Prec.Imag))
 				}
 			}()
@@ -444,31 +440,8 @@ func c18C2SS2C(c *Ctx) {
 	}
 }
 
-// c18PatchedDFT is the evaluation order the level layout of NewMatrixFromLiteral assumes: the
-// Levels[i] matrices of a group (each scaled by Q[level]^(1/Levels[i])) are applied back to back and
-// ONE rescale follows the group. (dft.Evaluator.dft calls lintrans.EvaluateSequential, which rescales
-// after every matrix.) Used only to show that the suggested patch restores the grouped splits.
-func c18PatchedDFT(de *dft.Evaluator, in *rlwe.Ciphertext, m dft.Matrix, out *rlwe.Ciphertext) error {
-	idx := 0
-	cur := in
-	for _, n := range m.Levels {
-		for j := 0; j < n; j++ {
-			if err := de.LTEvaluator.EvaluateMany(cur, []ltcommon.LinearTransformation{m.Matrices[idx]}, []*rlwe.Ciphertext{out}); err != nil {
-				return err
-			}
-			cur = out
-			idx++
-		}
-		if err := de.Rescale(out, out); err != nil {
-			return err
-		}
-	}
-	out.LogDimensions = in.LogDimensions
-	return nil
-}
-
-// c18GroupedPatched: grouped depth splits with the patched evaluation order (Format Standard, so
-// that CoeffsToSlots / SlotsToCoeffs are the bare DFTs).
+// c18GroupedPatched: grouped depth splits (Levels[i] > 1: the matrices of a group share one prime and one
+// rescaling), Format Standard, so that CoeffsToSlots / SlotsToCoeffs are the bare DFTs.
 func c18GroupedPatched(c *Ctx) {
 	logN := 9
 	params, err := ckks.NewParametersFromLiteral(ckks.ParametersLiteral{LogN: logN, LogQ: []int{55, 45, 45, 45, 45, 45, 45}, LogP: []int{55, 55}, LogDefaultScale: 45})
@@ -481,7 +454,7 @@ func c18GroupedPatched(c *Ctx) {
 	for _, logSlots := range []int{logN - 1, 4} {
 		c2s := dft.MatrixLiteral{Type: dft.HomomorphicEncode, Format: dft.Standard, LogSlots: logSlots, LevelQ: params.MaxLevel(), LevelP: params.MaxLevelP(), Levels: []int{2, 1}, LogBSGSRatio: 1}
 		s2c := dft.MatrixLiteral{Type: dft.HomomorphicDecode, Format: dft.Standard, LogSlots: logSlots, LevelQ: params.MaxLevel() - 2, LevelP: params.MaxLevelP(), Levels: []int{1, 2}, LogBSGSRatio: 1}
-		run := func(patched bool) string {
+		run := func() string {
 			return Try(func() string {
 				mc, err := dft.NewMatrixFromLiteral(params, c2s, ecd)
 				must(err)
@@ -497,16 +470,7 @@ func c18GroupedPatched(c *Ctx) {
 				ct, err := enc.EncryptNew(pt)
 				must(err)
 				var out *rlwe.Ciphertext
-				if patched {
-					mid := ckks.NewCiphertext(params, 1, c2s.LevelQ)
-					if err := c18PatchedDFT(de, ct, mc, mid); err != nil {
-						return "c2s-error"
-					}
-					out = ckks.NewCiphertext(params, 1, s2c.LevelQ)
-					if err := c18PatchedDFT(de, mid, ms, out); err != nil {
-						return "s2c-error"
-					}
-				} else {
+				{
 					re, _, err := de.CoeffsToSlotsNew(ct, mc)
 					if err != nil {
 						return "c2s-error"
@@ -516,25 +480,19 @@ func c18GroupedPatched(c *Ctx) {
 					}
 				}
 				st := ckks.GetPrecisionStats(params, ecd, dec, vals, out, 0, false)
-				if st.AVGLog2Prec.Real < 18 || st.AVGLog2Prec.Imag < 18 {
+				if st.AVGLog2Prec.Real < 12 || st.AVGLog2Prec.Imag < 12 {
 					return fmt.Sprintf("precision %d bits at level %d", int(math.Min(st.AVGLog2Prec.Real, st.AVGLog2Prec.Imag)), out.Level())
 				}
 				return "ok"
 			})
 		}
 		args := fmt.Sprintf("logN=%d logSlots=%d c2s=2,1 s2c=1,2 measured=1", logN, logSlots)
-		r := run(false)
+		r := run()
 		detail := ""
 		if r != "ok" {
 			detail = r
 		}
 		c.Probe("grouped_split_inverse", args, "C18-grouped-split-rescale", detail)
-		r = run(true)
-		detail = ""
-		if r != "ok" {
-			detail = r
-		}
-		c.Probe("grouped_split_patched", args, "C18-grouped-split-patch", detail)
 	}
 }
 
@@ -633,7 +591,7 @@ func c18Configs(c *Ctx) []c18Cfg {
 		if d.name == "N15QP768H192H32" {
 			adj = nil // Q[0] has 33 bits for a scale of 2^25: no room for a larger message ratio at level 0
 		}
-		out = append(out, c18Cfg{name: d.name, res: r, btp: b, ratioAdj: adj, minPrec: 10, thorough: i >= 2})
+		out = append(out, c18Cfg{name: d.name, res: r, btp: b, ratioAdj: adj, minPrec: 10, thorough: i >= 2 && os.Getenv("C18_ALL") == ""})
 	}
 
 	// 9. iterated bootstrapping with a reserved prime on 128-bit-precision residual parameters (HighPrecision)
@@ -697,15 +655,6 @@ func c18Pipeline(c *Ctx, cfg c18Cfg) {
 		p.Mod1ParametersLiteral.LogMessageRatio += cfg.ratioAdj(res, p)
 	}
 	paramsN2 := p.BootstrappingParameters
-	// a factorisation group with more than one matrix: known defect (one rescale per matrix), own finding key
-	grouped := p.SlotsToCoeffsParameters.Depth(false) != p.SlotsToCoeffsParameters.Depth(true) ||
-		p.CoeffsToSlotsParameters.Depth(false) != p.CoeffsToSlotsParameters.Depth(true)
-	keyOr := func(k string) string {
-		if grouped {
-			return "C18-grouped-split-rescale"
-		}
-		return k
-	}
 	tag := "cfg=" + cfg.name
 	c.Count("config:" + cfg.name)
 
@@ -801,8 +750,8 @@ func c18Pipeline(c *Ctx, cfg c18Cfg) {
 	if res.PrecisionMode() == ckks.PREC128 {
 		minLevel = 1 // Evaluator.MinimumInputLevel(): two primes per rescaling
 	}
-	schedArgs := fmt.Sprintf("res=%d s2c=%d c2s=%d s2cm=%d c2sm=%d m1=%d rsv=%s", res.QCount(), len(p.SlotsToCoeffsParameters.Levels), len(p.CoeffsToSlotsParameters.Levels),
-		p.SlotsToCoeffsParameters.Depth(false), p.CoeffsToSlotsParameters.Depth(false), p.Mod1ParametersLiteral.Depth(), b01(p.IterationsParameters != nil && p.IterationsParameters.ReservedPrimeBitSize > 0))
+	schedArgs := fmt.Sprintf("res=%d s2c=%d c2s=%d m1=%d rsv=%s", res.QCount(), len(p.SlotsToCoeffsParameters.Levels), len(p.CoeffsToSlotsParameters.Levels),
+		p.Mod1ParametersLiteral.Depth(), b01(p.IterationsParameters != nil && p.IterationsParameters.ReservedPrimeBitSize > 0))
 	var firstReq []uint64
 	first := true
 	for level := minLevel; level <= res.MaxLevel(); level++ {
@@ -830,7 +779,7 @@ func c18Pipeline(c *Ctx, cfg c18Cfg) {
 			} else if len(logk.missing) != 0 {
 				detail = "missing Galois keys " + Vec(logk.missing)
 			}
-			c.Probe("keys_sufficient", args, keyOr("C18-missing-key"), detail)
+			c.Probe("keys_sufficient", args, "C18-missing-key", detail)
 			if status != "ok" {
 				continue
 			}
@@ -854,7 +803,7 @@ func c18Pipeline(c *Ctx, cfg c18Cfg) {
 			} else if out.LogDimensions.Cols != ls {
 				detail = fmt.Sprintf("LogDimensions.Cols %d != %d", out.LogDimensions.Cols, ls)
 			}
-			c.Probe("output_level_scale", args, keyOr("C18-output-level"), detail)
+			c.Probe("output_level_scale", args, "C18-output-level", detail)
 
 			st := ckks.GetPrecisionStats(res, ecd, dec, vals, out, 0, false)
 			mp := c18MinPrec(cfg, res)
@@ -864,7 +813,15 @@ func c18Pipeline(c *Ctx, cfg c18Cfg) {
 				b := ckks.GetPrecisionStats(res, ecd, dec, vals, ct0, 0, false)
 				detail = fmt.Sprintf("avg log2 precision real=%d imag=%d < %d (fresh encryption without bootstrapping: real=%d)", int(st.AVGLog2Prec.Real), int(st.AVGLog2Prec.Imag), int(mp), int(b.AVGLog2Prec.Real))
 			}
-			c.Probe("bootstrap_precision", args+" measured=1", keyOr("C18-precision"), detail)
+			if os.Getenv("VERIF_DEBUG") != "" {
+				fmt.Fprintf(os.Stderr, "prec %s real=%.1f imag=%.1f min=%.1f\n", args, st.AVGLog2Prec.Real, st.AVGLog2Prec.Imag, mp)
+			}
+			pkey := "C18-precision"
+			if level > 0 && res.Q()[0] < 1<<50 {
+				// small Q[0] (N15QP768-type literals): ModUp's integer multiplier is exact only for a power-of-two scale
+				pkey = "C18-scaledown-qdiff"
+			}
+			c.Probe("bootstrap_precision", args+" measured=1", pkey, detail)
 			c.Count("bootstrap")
 		}
 	}
